@@ -71,8 +71,14 @@ C = {
          "unrelated reactor flows",
          "A-POS: when the try body raises the head stands on an element of its flow (precondition of the block, not verified); everything outside the "
          "handler (slide, _abort_flow, the match-time evaluation that has no handler at all: known findings) and termination are bounded only"),
- "C11": (None, "save/restore at every cut point and simulated idle time on programs holding sets, nested containers, flow/action/event references: same outgoing events, "
-               "shared references stay shared", "bounds in evidence"),
+ "C11": ("the aging part, function-level core only: the loop of _clean_up_state that selects the flow instances to discard (block contract) selects - whatever "
+         "the clock says - only instances of state.flow_states that are done (status stopped / finished, _is_done_flow under contract) and not "
+         "activated, and changes nothing; a waiting / starting / started / stopping or activated instance is never selected",
+         "save/restore at every cut point and simulated idle time on programs holding sets, nested containers, flow/action/event references: same outgoing events, "
+         "shared references stay shared",
+         "the clock (datetime.now, timedelta, their `-` and `>`) is arbitrary (A-OBJOP / A-OBJCMP); that discarding a done instance leaves every later reaction "
+         "unchanged, the removal loop, and the whole serialisation round trip (recursive encode_to_dict / decode_from_dict with the refs table: outside the "
+         "engine's reach) are bounded only"),
  "C12": ("Colang 1.0 post-passes (heap mode, all inputs): _resolve_gotos turns every goto into a relative jump that lands exactly on the element that was its "
          "label and every label into a jump to the next element, keeps every offset inside the flow and leaves no goto/label; "
          "RuntimeV1_0._load_flow_config stores a configuration whose elements are closed whenever the flow it is handed is (dropping the leading `meta` "
